@@ -164,6 +164,21 @@ def check_functions(prog, funcs, funclabels, parse_nodes):
         i = prog.label_at.get(name)
         if i is not None and prog.nodes[i]["kind"] != "FuncEntry":
             return f"label {name!r} is called but node {i} is not a function entry"
+    # an interrupt-vector installation names a label too: `la rX, L` directly followed by
+    # `csrrw _, utvec, rX` (the simplest, purely syntactic case; wherever the pair stands - in the
+    # program's main path, in a function, in a handler, in code nothing reaches)
+    for k in range(len(parse_nodes) - 1):
+        a_, b_ = parse_nodes[k], parse_nodes[k + 1]
+        if " LoadAddr " in a_ and " Csr Csrrw " in b_ and re.search(r" csr=5/", b_):
+            rd = re.search(r" rd=(\d+)/", a_)
+            rs = re.search(r" rs1=(\d+)/", b_)
+            if rd and rs and rd.group(1) == rs.group(1) and rd.group(1) != "0":
+                name = unhx(field(a_, "name").split("/")[0])
+                i = prog.label_at.get(name)
+                if i is not None and prog.nodes[i]["seg"] == "T" and \
+                        (prog.nodes[i]["kind"] != "FuncEntry" or "handler=true" not in prog.nodes[i]["line"]):
+                    return (f"label {name!r} is installed as the interrupt handler but node {i} is not a "
+                            f"handler function entry")
     fe = {f["entry"] for f in funcs}
     if fe != set(entries):
         return f"functions {sorted(fe)} differ from function entries {sorted(entries)}"
